@@ -28,6 +28,7 @@ CONSTANTS MaxObj, MaxSteps,
           AllowClear, AllowRelate, AllowSweep, AllowQueryX,
           AllowDeclare,       \* a query object may be built first (Declare) and evaluated later (EvalDeclared)
           AllowInfer,         \* a rule query may infer a new instance from a live one (Infer)
+          AllowDetach,        \* an instance referring to another through a plain attribute (CreateRef) and the reset of that reference (Detach)
           CopyModes,          \* ways other than calling the class in which a new instance comes into being from a live one:
                               \* copy | deepcopy | replace | from_dao (ORM reconstruction)  - {} switches CreateFrom off
           UnregisteredModes,  \* deviation: creation modes whose allocation bypasses Symbol.__new__ ({} = as implemented)
@@ -62,6 +63,12 @@ Freed(rt) == LET U == Unreach(rt)
                  onc(x) == x \in Reach({ t \in U : <<x, t>> \in inU }, inU, U)
                  kept == Reach({ x \in U : onc(x) }, inU, U)
              IN U \ kept
+\* the same under an explicit reference relation R (for a step that changes the references themselves)
+FreedIn(rt, R, live) == LET U == live \ Reach(rt \cap live, R, live)
+                            inU == { e \in R : e[1] \in U /\ e[2] \in U }
+                            onc(x) == x \in Reach({ t \in U : <<x, t>> \in inU }, inU, U)
+                            kept == Reach({ x \in U : onc(x) }, inU, U)
+                        IN U \ kept
 Holders == roots \cup pinned
 \* the same with the reference-level (R) notion of death: only the user's references count
 AliveR == Objs \ deadR
@@ -256,6 +263,27 @@ Infer(p) ==
   /\ UNCHANGED <<dead, deadR, facts, lastQ, lastRel>>
   /\ Log([a |-> "infer", p |-> p, o |-> next, live |-> Alive \cup {next}, liveR |-> AliveR \cup {next}])
 
+\* Tag(p = person) made by CALLING the class: an instance of T that refers to p through a plain (unmanaged) attribute; no query
+\* is involved, so nothing is pinned.
+CreateRef(p) ==
+  /\ AllowDetach /\ next <= MaxObj /\ p \in roots /\ p \notin dead /\ cls[p] = "P"
+  /\ next' = next + 1 /\ cls' = Append(cls, "T") /\ roots' = roots \cup {next} /\ tracked' = tracked \cup {next}
+  /\ fld' = fld \cup {<<"p", next, p>>}
+  /\ SetG(AddNode(G, next, "T"))
+  /\ UNCHANGED <<dead, deadR, facts, pinned, lastQ, lastRel>>
+  /\ Log([a |-> "createref", p |-> p, o |-> next, live |-> Alive \cup {next}, liveR |-> AliveR \cup {next}])
+\* tag.p = None: the plain reference is reset; whoever was held only through it dies by reference counting.  The symbol graph
+\* is not involved (the attribute is not a managed property).
+Detach(t) ==
+  /\ AllowDetach /\ t \in roots /\ t \notin dead /\ cls[t] = "T" /\ (\E e \in fld : e[1] = "p" /\ e[2] = t)
+  /\ LET f2 == { e \in fld : ~(e[1] = "p" /\ e[2] = t) }
+         R2 == { <<e[2], e[3]>> : e \in f2 }
+     IN /\ fld' = f2
+        /\ dead' = dead \cup FreedIn(roots \cup pinned, R2, Alive)
+        /\ deadR' = deadR \cup FreedIn(roots, R2, AliveR)
+  /\ UnchangedG /\ UNCHANGED <<next, cls, roots, tracked, facts, pinned, lastQ, lastRel>>
+  /\ Log([a |-> "detach", o |-> t, live |-> Objs \ dead', liveR |-> Objs \ deadR'])
+
 \* q = an(entity(let(T, None))) is built now and evaluated later: building touches nothing; the evaluation ranges over the
 \* instances that exist WHEN IT RUNS (not over those that existed when the query was written)
 Declare(T) ==
@@ -276,6 +304,8 @@ Step == \/ \E c \in CreateClasses : Create(c)
         \/ \E T \in QueryClasses : QueryFirst(T)
         \/ \E p \in roots, c \in roots : Relate(p, c)
         \/ \E p \in roots : Infer(p)
+        \/ \E p \in roots : CreateRef(p)
+        \/ \E t \in roots : Detach(t)
         \/ Clear
 NextOld == /\ steps < MaxSteps /\ steps' = steps + 1
         /\ \/ \E c \in CreateClasses : Create(c)
